@@ -664,6 +664,41 @@ def _while_variant(w, fi, cfg, st: ast.While):
             # no continue before the read: it is the first statement
             return True, 'pointer-progress', ''
         return False, 'pointer-progress', 'fetch loop does not start each iteration with a >= 1 byte read'
+    # (b0) countdown: while c > K: ... c -= k (k >= 1) unconditionally in every iteration, no other write of c
+    if isinstance(test, ast.Compare) and len(test.ops) == 1 and isinstance(test.ops[0], (ast.Gt, ast.GtE, ast.Lt, ast.LtE)):
+        l, r = test.left, test.comparators[0]
+        cvar = None
+        if isinstance(test.ops[0], (ast.Gt, ast.GtE)) and isinstance(l, ast.Name) and isinstance(r, ast.Constant):
+            cvar = l.id
+        if isinstance(test.ops[0], (ast.Lt, ast.LtE)) and isinstance(r, ast.Name) and isinstance(l, ast.Constant):
+            cvar = r.id
+        if cvar is not None:
+            decs = [x for x in st.body if isinstance(x, ast.AugAssign) and isinstance(x.target, ast.Name) and x.target.id == cvar
+                    and isinstance(x.op, ast.Sub) and isinstance(x.value, ast.Constant) and isinstance(x.value.value, int)
+                    and x.value.value >= 1]
+            writes = [x for x in ast.walk(st) if isinstance(x, ast.Name) and x.id == cvar and isinstance(x.ctx, ast.Store)]
+            has_continue = any(isinstance(x, ast.Continue) for x in ast.walk(st))
+            if len(decs) == 1 and len(writes) == 1 and (not has_continue or st.body.index(decs[0]) == 0):
+                return True, 'countdown', ''
+            return False, 'countdown', f'loop counter `{cvar}` is not decreased by a positive constant in every iteration'
+    # (b1) a list filled up to a bound: while len(xs) < n: xs.append(..) exactly once per iteration, n not written
+    if isinstance(test, ast.Compare) and len(test.ops) == 1 and isinstance(test.ops[0], (ast.Lt, ast.Gt)):
+        a, b = test.left, test.comparators[0]
+        if isinstance(test.ops[0], ast.Gt):
+            a, b = b, a
+        if isinstance(a, ast.Call) and dotted(a.func) == 'len' and a.args and isinstance(a.args[0], ast.Name) and \
+                isinstance(b, (ast.Name, ast.Constant)):
+            x = a.args[0].id
+            apps = [s2 for s2 in st.body if isinstance(s2, ast.Expr) and isinstance(s2.value, ast.Call) and
+                    isinstance(s2.value.func, ast.Attribute) and s2.value.func.attr == 'append' and
+                    isinstance(s2.value.func.value, ast.Name) and s2.value.func.value.id == x]
+            other = [n for n in ast.walk(st) if isinstance(n, ast.Call) and isinstance(n.func, ast.Attribute) and
+                     isinstance(n.func.value, ast.Name) and n.func.value.id == x and n.func.attr != 'append']
+            rebinds = [n for n in ast.walk(st) if isinstance(n, ast.Name) and isinstance(n.ctx, ast.Store) and
+                       n.id in {x} | ({b.id} if isinstance(b, ast.Name) else set())]
+            has_continue = any(isinstance(n, ast.Continue) for n in ast.walk(st))
+            if len(apps) == 1 and not other and not rebinds and not has_continue:
+                return True, 'filling-list', ''
     # (b) shrinking difference: while len(a) < len(b): a += <non-empty bytes>
     if isinstance(test, ast.Compare) and len(test.ops) == 1 and isinstance(test.ops[0], (ast.Lt, ast.Gt)):
         a, b = test.left, test.comparators[0]
